@@ -161,6 +161,42 @@ func (e *c06ex) Exec(op string) string {
 		}
 		e.swaps[w[1]] = id
 		return "ok"
+	case "swapanswer":
+		// the robot's answer to a swap that brings units home from the other channel: they leave the
+		// given-out counter and wait in the answered record for the key (or for a cancel)
+		if !need(4, 2) {
+			return "bad-op"
+		}
+		if _, dup := e.swaps[w[1]]; dup {
+			return "err"
+		}
+		amt, okn := new(big.Int).SetString(w[3], 10)
+		if !okn || amt.Sign() <= 0 {
+			return "err"
+		}
+		id := simpeer.NewTxID()
+		idb, _ := hex.DecodeString(id)
+		h := sha3.Sum256([]byte("key-" + w[1]))
+		b := e.c.ExecBatch(&fpb.Batch{Swaps: []*fpb.Swap{{Id: idb, Creator: []byte("0000"), Owner: e.u(w[2]).AddrRaw, Token: "VT",
+			Amount: amt.Bytes(), From: "CC", To: "VT", Hash: h[:], Timeout: 1}}})
+		if b.Resp == nil || len(b.Resp.SwapResponses) != 1 || b.Resp.SwapResponses[0].GetError() != nil {
+			return "err"
+		}
+		e.swaps[w[1]] = id
+		return "ok"
+	case "swapuserdone":
+		if !need(2) {
+			return "bad-op"
+		}
+		id, ok := e.swaps[w[1]]
+		if !ok {
+			id = "00ff"
+		}
+		if r := e.c.Invoke(wd.Client.Creator, simpeer.NewTxID(), "swapDone", id, "key-"+w[1]); !r.OK() {
+			return "err"
+		}
+		delete(e.swaps, w[1])
+		return "ok"
 	case "swapcancel":
 		if !need(2) {
 			return "bad-op"
@@ -245,6 +281,23 @@ func genC06(c *Cfg, emit func([]string)) {
 	}
 	users := []string{"u0", "u1", "u2"}
 	pick := func(xs []string) string { return xs[c.Rng.Intn(len(xs))] }
+	// directed: units given out (cross-channel transfer, completed swap), then swaps coming home
+	// answered out of the counter and closed each way: by the key, by a cancel, twice, under-funded
+	for _, give := range []string{"chfrom T1 u0 500", "swapbegin S1 u0 500;swaprobotdone S1"} {
+		for _, closing := range [][]string{{"swapcancel R1"}, {"swapuserdone R1"}, {"swapcancel R1", "swapcancel R1"}, {"swapuserdone R1", "swapcancel R1"},
+			{"swapcancel R1", "swapuserdone R1"}, {"swapanswer R2 u2 493", "swapanswer R3 u2 1", "swapcancel R2", "swapanswer R3 u2 1", "swapcancel R1", "swapuserdone R3"}} {
+			h := []string{"reset", "emit u0 1000", "dump"}
+			for _, g := range strings.Split(give, ";") {
+				h = append(h, g, "dump")
+			}
+			h = append(h, "swapanswer R0 u1 501", "dump", "swapanswer R1 u1 7", "dump")
+			for _, x := range closing {
+				h = append(h, x, "dump")
+			}
+			h = append(h, "chcancel T1", "dump")
+			emit(h)
+		}
+	}
 	for i := 0; i < nHist; i++ {
 		h := []string{"reset"}
 		base := pick([]string{"1000", "5", "340282366920938463463374607431768211456", "115792089237316195423570985008687907853269984665640564039457584007913129639936"})
@@ -263,7 +316,7 @@ func genC06(c *Cfg, emit func([]string)) {
 		case 1:
 			h = append(h, "setfee 10000000") // fee configured, address missing: every transfer must fail cleanly
 		}
-		nsw, nch, nlk := 0, 0, 0
+		nsw, nch, nlk, nrs := 0, 0, 0, 0
 		n := 3 + c.Rng.Intn(maxSteps)
 		amount := func(u string) string {
 			b := bal[u]
@@ -293,7 +346,16 @@ func genC06(c *Cfg, emit func([]string)) {
 		}
 		for j := 0; j < n; j++ {
 			u, v := pick(users), pick(users)
-			switch c.Rng.Intn(12) {
+			switch c.Rng.Intn(14) {
+			case 12:
+				// a swap coming home: answered out of what was given out before
+				// (named R..: the robot's key list is for records begun here, S.., only - a key list naming an
+				// answered copy is robot content off protocol, see DESIGN 10.11)
+				nrs++
+				h = append(h, fmt.Sprintf("swapanswer R%d %s %s", nrs, u, pick([]string{"1", "2", "7", amount(u), "300"})))
+			case 13:
+				h = append(h, pick([]string{fmt.Sprintf("swapuserdone R%d", 1+c.Rng.Intn(nrs+1)), fmt.Sprintf("swapuserdone S%d", 1+c.Rng.Intn(nsw+1)),
+					fmt.Sprintf("swapcancel R%d", 1+c.Rng.Intn(nrs+1))}))
 			case 11:
 				if c.Rng.Intn(2) == 0 {
 					h = append(h, "setfeeaddr "+u)
@@ -344,6 +406,6 @@ func genC06(c *Cfg, emit func([]string)) {
 		}
 		emit(h)
 	}
-	c.Rule = fmt.Sprintf("%d random histories of 3..%d operations through Invoke (emit, burn, transfer with and without a fee leg (fee collector among the senders), two transfers in one task list or batch, forced transfer by the admin, external lock, swap begin / cancel / robot completion, cross-channel transfer from / cancel) over 3 accounts incl. self, amounts {0, 1, balance-1, balance, balance+1, -1, 2^64+1, random small} on funding {5, 1000, 2^128, 2^256}; after every step: all spendable and locked balances, the given-out counter, the escrow of open swaps and total_emission; non-trivial = at least one emission; distinct = sha256", nHist, maxSteps+2)
+	c.Rule = fmt.Sprintf("%d random histories of 3..%d operations through Invoke (emit, burn, transfer with and without a fee leg (fee collector among the senders), two transfers in one task list or batch, forced transfer by the admin, external lock, swap begin / cancel / robot completion, answered swaps coming home (out of the given-out counter) and their completion by key or cancel, cross-channel transfer from / cancel) over 3 accounts incl. self, amounts {0, 1, balance-1, balance, balance+1, -1, 2^64+1, random small} on funding {5, 1000, 2^128, 2^256}; after every step: all spendable and locked balances, the given-out counter, the escrow of open swaps and total_emission; non-trivial = at least one emission; distinct = sha256", nHist, maxSteps+2)
 	c.Extra = map[string]any{"histories": nHist}
 }
